@@ -178,9 +178,9 @@ Proof. exact group_by_prob_same_prob. Qed.
    included) are related in the same way, for every file, whitespace class, float() and codec *)
 Theorem C04_source_group_same_prob :
   forall (ws : N -> bool) (pfloat : LoaderRt.pstr -> option PrimFloat.float) (encb : N -> bool) (reason : LoaderRt.pstr)
-         (copen : LoaderRt.pstr -> LoaderRt.pstr -> option (list LoaderRt.pstr)) (filename encoding : LoaderRt.pstr)
+         (copen : LoaderRt.pstr -> LoaderRt.pstr -> option LoaderRt.pstr -> option (list LoaderRt.pstr)) (filename encoding : LoaderRt.pstr)
          (lines : list LoaderRt.pstr) gs,
-  copen filename encoding = Some lines ->
+  copen filename encoding (Some surrogateescape) = Some lines ->
   py_load_from_file F64ops ws pfloat (enc_of encb reason) copen [] filename encoding = LoaderRt.Done (gs, true) ->
   exists its, TextFile.guesser_items ws pfloat encb (onfail_of_reason reason) lines false = Some its /\
     (forall it v, In it gs -> In v (LoaderRt.it_values it) -> exists q, In (v, q) its /\ same_prob q (LoaderRt.it_prob it)) /\
@@ -189,7 +189,7 @@ Proof. exact source_groups_same_prob. Qed.
 
 (* non-vacuity: three lines, the first two with the same probability: two groups *)
 Theorem C04_source_group_example :
-  py_load_from_file F64ops ex_ws ex_pfloat (enc_of (fun _ => true) []) (fun _ _ => Some
+  py_load_from_file F64ops ex_ws ex_pfloat (enc_of (fun _ => true) []) (fun _ _ _ => Some
       [[97; 9; 48; 46; 53; 10]; [98; 9; 48; 46; 53; 10]; [99; 9; 48; 46; 50; 53; 10]]%N) [] [] [] =
   LoaderRt.Done ([{| LoaderRt.it_values := [[97]; [98]]%N; LoaderRt.it_prob := 0.5%float |};
                   {| LoaderRt.it_values := [[99]]%N; LoaderRt.it_prob := 0.25%float |}], true).
